@@ -5,6 +5,8 @@ import PdfModel.Model.ContentLoopEI
 import PdfModel.Model.XrefTable
 import PdfModel.Model.XrefStreamRead
 import PdfModel.Drv.Obj
+import PdfModel.Model.DeriveTower
+import PdfModel.Generated.Schemas
 
 /-! Line-protocol handler for the C01 streams (bytes as hex, `-` = empty). The entry points that the C03
     package already serves (`c03.word`, `.peek`, `.back`, `.expect`, `.nextstream`, `.readn`, `.setpos`,
@@ -26,6 +28,8 @@ import PdfModel.Drv.Obj
   c01.xref <buf> <pos> <lens> <0|1>  read_xref_and_trailer_at (`XrefTable.readXrefAt`, both formats; the flag is
                                    `allow_xref_error`) → table <sections> <trailer> <pos> | stream <sections> <trailer>
                                    | err | unmodelled (a stream dictionary outside the plain shape `typedSimple` reads)
+  c01.registry                     `Derive.registryOkB Generated.generatedSchemas` (the hypothesis of `typed_registry_total`)
+                                   → ok schemas=<n> defaults=<n> hand-leaves=<names> | not-ok …
         sections: `first=e,e;first=…` with e = `f<next>.<gen>` | `n<pos>.<gen>` | `s<stream>.<index>`, `-` = none
 -/
 
@@ -161,6 +165,15 @@ def handle (args : List String) : String :=
         | o => o.tag
       | o => o.tag
     | _, _, _, _ => "bad-request"
+  | ["c01.registry"] =>
+    -- the decidable hypothesis `RegistryOk` of `Props/C01.typed_registry_total`, evaluated on the generated schemas
+    let G := Generated.generatedSchemas
+    let bad := (G.filter fun S => !S.dfltOk G).map (·.name)
+    let nd := (G.flatMap fun S => S.fields.filterMap (·.default)).length
+    let hand := ((G.flatMap fun S => S.fields.flatMap fun f => f.shape.leaves).filter
+      (fun n => Derive.isHand G (.leaf n))).eraseDups
+    if Derive.registryOkB G then s!"ok schemas={G.length} defaults={nd} hand-leaves={",".intercalate hand}"
+    else s!"not-ok defaults-that-do-not-evaluate-in={",".intercalate bad}"
   | _ => "bad-request"
 
 end DrvC01
